@@ -381,7 +381,17 @@ def deterministic_replay(pid, path):
         pr = subprocess.run([sys.executable, "-m", "vf.run", pid, "--replay", path, "--json"],
                             cwd=VERIF, capture_output=True, text=True, timeout=600)
         outs.append(pr.stdout.strip().splitlines()[-1] if pr.stdout.strip() else pr.stderr[-300:])
-    return outs[0] == outs[1], outs
+    if outs[0] == outs[1]:
+        return True, outs
+    # two replays that BOTH fail with the same failure kinds agree on the verdict even if the
+    # texts differ (a change that makes behaviour depend on the process history does that)
+    try:
+        k = [sorted({f[0] for f in json.loads(o)}) for o in outs]
+        if k[0] and k[0] == k[1]:
+            return True, outs
+    except Exception:  # noqa: BLE001
+        pass
+    return False, outs
 
 
 def load_check(pid):
